@@ -88,6 +88,9 @@ def generate(seed, tier="quick"):
                    "dates": 2}
     elif stochastic:
         product = {"kind": "cds", "maturity": r.choice([0.5, 1.0, 2.0]), "default_level": r.choice([-0.06, -0.1])}
+        if sub_rng(seed, "c08.stoch_call").random() < 0.5:
+            # path-dependent dates with a payoff that sees the diffusion part too (a default time only reads the jumps)
+            product = {"kind": "stoch_call", "maturity": product["maturity"], "strike": 100.0}
     else:
         product = {"kind": r.choice(["call", "put", "forward"]), "maturity": r.choice([0.25, 0.5, 1.0]),
                    "strike": r.choice([90.0, 100.0, 110.0]), "dates": r.choice([2, 2, 3, 4, 6])}
@@ -199,7 +202,7 @@ def shrink_candidates(sc):
         c = mod()
         c["product"]["dates"] = 2
         yield c
-    if sc["product"]["kind"] not in ("call", "cds"):
+    if sc["product"]["kind"] not in ("call", "cds", "stoch_call"):
         c = mod()
         c["product"]["kind"] = "call"
         yield c
@@ -364,7 +367,7 @@ def _site(cons):
 def _oracles_for_run(wd, sc, mark, end):
     """U1 U2 U3 U4 D over the slices of the ledgers that belong to one run"""
     V = []
-    mode = "jump-times" if sc["product"]["kind"] in ("cds", "ntd") or sc["process"]["kind"].startswith("sde") else "fixed-dates"
+    mode = "jump-times" if sc["product"]["kind"] in ("cds", "ntd", "stoch_call") or sc["process"]["kind"].startswith("sde") else "fixed-dates"
     cls = f"engine={sc['engine']}|mode={mode}|procs={'1' if sc['nproc'] == 1 else 'pool'}"
     draws = wd.draws[mark["draws"]:end["draws"]]
     # ---- U1 / U2 -------------------------------------------------------------------------------
@@ -535,7 +538,7 @@ def execute(wd, sc):
             wd.probes["c08.repeat_compared"] += 1
             same, where = _same(obs1, obs2)
             if not same:
-                mode = "jump-times" if sc["product"]["kind"] in ("cds", "ntd") or sc["process"]["kind"].startswith("sde") else "fixed-dates"
+                mode = "jump-times" if sc["product"]["kind"] in ("cds", "ntd", "stoch_call") or sc["process"]["kind"].startswith("sde") else "fixed-dates"
                 seedcls = "seed=0" if sc["seed"] == 0 else "seed=int"
                 objs = "same-objects" if reuse is not None else "fresh-objects"
                 sig = f"C08.R|seeded single-process run not repeatable|engine={sc['engine']}|mode={mode}|{seedcls}|{objs}"
